@@ -1811,17 +1811,26 @@ pub(crate) mod convert {
             deps: &'a mut FilterDependencies,
         ) -> ConvertResult<Self> {
             let mut entries = read_unit.entries_raw(None)?;
-            let abbrev = entries
-                .read_abbreviation()?
-                .ok_or(read::Error::MissingUnitDie)?;
-            entries.skip_attributes(abbrev.attributes())?;
-            Ok(FilterUnit {
+            let mut root = read::DebuggingInformationEntry::null();
+            if !entries.read_entry(&mut root)? {
+                return Err(read::Error::MissingUnitDie.into());
+            }
+            let mut unit = FilterUnit {
                 read_unit,
                 read_skeleton_unit,
                 entries,
                 parents: Vec::new(),
                 deps,
-            })
+            };
+            // The root DIE is always converted, so the DIEs it references are required.
+            let mut root_deps = Vec::new();
+            for attr in &root.attrs {
+                unit.add_attribute_refs(&mut root_deps, attr.value())?;
+            }
+            for dep in root_deps {
+                unit.deps.require_entry(dep);
+            }
+            Ok(unit)
         }
 
         /// Return a null DIE for use with [`FilterUnit::read_entry`].
